@@ -353,6 +353,7 @@ def main(argv=None):
     ap.add_argument("--shards", type=int)
     ap.add_argument("--budget", type=float)
     ap.add_argument("--no-shrink", action="store_true")
+    ap.add_argument("--no-fuzz", action="store_true")
     args = ap.parse_args(argv)
     pid = args.pid.upper()
     try:
@@ -458,6 +459,30 @@ def main(argv=None):
         samples = sorted((s for r in results for s in r["samples"]), key=lambda c: len(canon(c)))
         merged["samples"] = samples[:4]
 
+        # 4. thorough tier: coverage-guided campaign (atheris/libFuzzer) through the same strategy and oracle
+        fuzz_info = None
+        if args.tier == "thorough" and hasattr(mod, "FUZZ") and not args.no_fuzz:
+            import shutil
+            import tempfile
+            from vk import fuzz
+
+            tmp = tempfile.mkdtemp(prefix="vkfuzz.")
+            try:
+                fuzz_info = fuzz.run_campaign(pid, int(mod.FUZZ.get("seconds", 60)), int(mod.FUZZ.get("jobs", 8)), seed, tmp, _outdir("replays"))
+            finally:
+                shutil.rmtree(tmp, ignore_errors=True)
+            if not fuzz_info["available"]:
+                print("note: atheris is not installed under .deps (run ./setup.sh); coverage-guided campaign skipped", file=sys.stderr)
+            for path in fuzz_info["violations"]:
+                case = load_case_file(path)
+                vs = [v for v in safe_check(mod, case)
+                      if not ((mod.known(case, v) if hasattr(mod, "known") else None) in open_keys)]
+                if vs:  # confirmed outside the fuzzer process
+                    rel = os.path.relpath(path, HERE) if not os.environ.get("VERIF_EVIDENCE_DIR") else path
+                    print(f"  violated clause {vs[0]['clause']} (found by the coverage-guided campaign): {str(vs[0]['detail'])[:600]}")
+                    violations.append(("fuzz:" + vs[0]["clause"], rel))
+            fuzz_info["violations"] = len(fuzz_info["violations"])
+
         for b, rec in sorted(merged["buckets"].items()):
             path = write_replay(pid, b, rec["case"], rec["detail"])
             print(f"  violated clause {b} ({rec['count']} cases): {str(rec['detail'])[:600]}")
@@ -465,6 +490,8 @@ def main(argv=None):
 
         wall = time.time() - t0
         extra = {"regressions_replayed": nreg, "shards": nshards, "examples_per_shard": per}
+        if fuzz_info is not None:
+            extra["coverage_guided_campaign"] = fuzz_info
         floors = getattr(mod, "CLASS_FLOORS", {})
         gen_total = max(1, merged["evaluations"] - nreg)
         low = {k: merged["classes"].get(k, 0) / gen_total for k, fl in floors.items()
